@@ -128,6 +128,9 @@ int vf_main(void) {
     }
 #if !BATCH
     if (!overflow) VF_CHECK(k == nexp, "everything sent before the pill was delivered");
+#else
+    /* batching holds events back - but not past a poison pill: what was sent before it is delivered before the stop */
+    if (!overflow && pilled) VF_CHECK(k == nexp, "everything sent before the pill was delivered, batched or not");
 #endif
     if (pilled) VF_CHECK(m_mod_is(B, M_MOD_STOPPED), "the pill stopped B");
     for (int j = 0; j < VF_LOGN; j++) if (j < vf_nlog[1]) VF_CHECK(vf_log[1][j].state == M_MOD_RUNNING, "everything is handed to B while it is still RUNNING: the pill stops it only afterwards");
